@@ -213,6 +213,27 @@ theorem accepted_document_not_reingestable_witness :
     ingestOk schemaReq (project schemaReq docEmptyChild) = false := by
   decide
 
+/-- `compactSafe` looks at the properties of nested objects at every depth
+(`schema.resolved_fields()` contains the nested paths): a compact-safe property list has only
+safe leaves … -/
+theorem compact_safe_covers_nested_leaves (props : NProps σ) (x : σ) (l : Leaf σ)
+    (hs : propsSafe props = true) (hx : props.find x = some (.leaf l)) : l.safe = true :=
+  find_leaf_safe props x l hs hx
+
+/-- … so a fast-only numeric property of a nested object, and an indexed unstored keyword of a
+nested-in-nested object, make the schema unsafe (compaction refuses) -/
+example : compactSafe ({ idField := 0, flat := [], nested :=
+    [.mk 1 true (.cons (.leaf leafA)
+      (.cons (.leaf { name := 7, kind := .i64, stored := false, indexed := false, fast := true, nullable := true }) .nil))] }
+    : Schema Nat) = false := by decide
+
+example : compactSafe ({ idField := 0, flat := [], nested :=
+    [.mk 1 true (.cons (.leaf leafA)
+      (.cons (.object (.mk 3 true (.cons (.leaf { leafA with name := 4, stored := false }) .nil))) .nil))] }
+    : Schema Nat) = false := by decide
+
+example : compactSafe schemaReq = true := by decide
+
 /-- non-vacuity of `compact_ok_partial` / `compact_contents`: two segments, one tombstone -/
 example :
     (compact cfgId (run cfgId false
